@@ -61,6 +61,9 @@ CHECKS = {
  "C12": ("Specter.tla models the atomically swapped spec pointer (a torn-update negative control must be refuted); concurrent walks of distinct machine states over one compiled spec object (native and ECMAScript actions and guards, failing and succeeding) run while an UpdatableSpec is swapped between versions, under GOMAXPROCS 2/4/16, plain and -race; TLC (Trace_Specter) searches a linearization in which every walk returns exactly the result that ONE version current between its call and return gives alone; spec snapshots must be unchanged; every race report is a violation.",
          "8.C12", "schedules are whatever the Go runtime produces (not gated); the race detector is a sensor, absence of a report covers only the executions driven; solo results come from the real engine",
          "TLA+ atomic-pointer model + TLC linearizability trace judge over concurrent walks/swaps of the real engine, race detector as sensor"),
+ "C13": ("Loader.tla states that every rendering of an abstract spec denotes the same spec; each generated abstract spec is rendered as Go structures, JSON, YAML, with patterns inline or as JSON text, compiled once/twice/forced, compiled-serialised-reloaded and through sio's loader (inline, file:// JSON, file:// YAML); the same message sequences are walked over every variant; TLC judges SameBehaviour, CompileOutcome (unknown interpreter / branching type / pattern syntax rejected at compile time) and that malformed documents yield a spec or an error (the document half of C07).",
+         "8.C13", "seeded specs of 3 nodes with patterns of every JSON shape; three message sequences per spec; mcrew's GetSpec path not included",
+         "TLA+ rendering-equivalence spec (Loader.tla) + TLC trace judge over behaviours of every loaded variant"),
 }
 def main():
     checks = []
